@@ -182,6 +182,10 @@ def scope(model, family: str, schema_id: str, size: int, **over) -> dict:
     elif family == "lowbyte":  # code units that differ only in their HIGH byte (U+0061 / U+0161, U+0030 / U+0430)
         s = {"types": ["doc", "paragraph", "text"], "texts": ["a", "\u0161", "a\u0161", "\u0161a", "0", "\u0430"],
              "max_children": 2}
+    elif family == "astral2":  # plain two-character text that gets cut in the middle, and astral text to merge into it
+        s = {"types": ["doc", "paragraph", "text"], "texts": ["ab", "\U0001F600", "c"], "max_children": 2}
+    elif family == "three":  # short paragraphs, three and more in one parent
+        s = {"types": ["doc", "paragraph", "blockquote", "text"], "texts": ["a"], "max_children": 3}
     elif family == "attrs_sub":  # attribute values that are key-subsets / prefixes of one another
         s = {
             "types": ["doc", "para", "widget", "text"],
@@ -264,8 +268,8 @@ def scope(model, family: str, schema_id: str, size: int, **over) -> dict:
 
 def families_for(schema_id: str) -> list[str]:
     return {
-        "basic": ["blocks", "blocks2", "long", "marks3", "pcode", "lowbyte", "inline", "inline_s", "astral", "links"],
-        "list": ["blocks", "blocks2", "long", "marks3", "inline", "inline_s", "lists", "lists_q", "astral"],
+        "basic": ["blocks", "blocks2", "long", "marks3", "pcode", "lowbyte", "three", "inline", "inline_s", "astral", "links"],
+        "list": ["blocks", "blocks2", "long", "marks3", "astral2", "inline", "inline_s", "lists", "lists_q", "astral"],
         "strict_hb": ["strict"],
         "title": ["title"],
         "fixed": ["fixed"],
